@@ -201,3 +201,43 @@ Theorem C01_whole_pipeline_write_loop_is_write_all :
     end.
 Proof. exact Gengo.Props.Whole.Whole_write_loop_is_genfile_write_all. Qed.
 Print Assumptions C01_whole_pipeline_write_loop_is_write_all.
+
+(* ------------------------------------------------------------------------------------------------------------ *)
+(* RenderStack: the body and the import table are no longer data.  [cfile] (Model/RenderStack.v) is [assemble] over
+   the composed rendering of a generator's fragments — C09's scanners over C10's value literals and C11's / C15's
+   type literals and references, all through ONE tracker of C03 that starts empty — and the import block is printed
+   from the state that tracker ends in.  C03's sentence, on the source handed to the formatter, for ALL fragment lists:
+   the block lists exactly the packages the rendered body refers to (none missing, none extra), each once, under
+   pairwise distinct valid names, sorted by path; and every fragment of the body is what C09 renders when its leaves
+   are printed against THAT table — each qualifier in the body is the name the block binds to the package. *)
+Require Import Gengo.Model.RenderStack Gengo.Proofs.RenderStackTracker Gengo.Proofs.RenderStackLeaves Gengo.Proofs.RenderStack.
+Require Gengo.Model.Snippet.
+
+Theorem C01_file_imports :
+  forall (F : Type) (fzero : F -> bool) (ffmt gfmt : VL.fkind -> F -> bytes) (fbig : F -> bool)
+         (quote : bytes -> bytes) (cbq : bytes -> bool) (pre : list bytes) (std : option Tk.tracker)
+         (self : bytes) (fx6 : bool) (pkg gen : bytes) (frags : list (@csnip F)) (body : bytes) (e' : TL.renv),
+    crender_all fzero ffmt gfmt fbig quote cbq (pick_c03 pre std) self fx6 frags [] = Ok (body, e') ->
+    cfile fzero ffmt gfmt fbig quote cbq pre std self fx6 pkg gen frags = Ok (assemble pkg gen e' body)
+    /\ assemble pkg gen e' body
+       = header_comment pkg gen ++ ([nl] ++ bs "package " ++ pkg ++ [nl]) ++ import_block e' ++ body
+    /\ table_ok pre e'
+    /\ (forall p, In p (map fst e') <-> In p (flat_map (cpkgs fzero ffmt gfmt fbig quote self fx6) frags))
+    /\ (e' = [] -> import_block e' = [])
+    /\ (e' <> [] ->
+        exists entries,
+          Permutation entries e' /\ StronglySorted le (map fst entries) /\
+          import_block e'
+          = nl :: bs "import (" ++ [nl]
+            ++ flat_map (fun e => tab :: snd e ++ bs " " ++ [dquote] ++ fst e ++ [dquote; nl]) entries
+            ++ bs ")" ++ [nl])
+    /\ exists outs,
+         Forall2 (fun s o => Gengo.Model.Snippet.render Gengo.Model.Snippet.all_fixed
+                               (cerase fzero ffmt gfmt fbig quote cbq (pick_c03 pre std) self fx6 e' s) = Ok o) frags outs
+         /\ body = concat outs.
+Proof.
+  exact (fun F fzero ffmt gfmt fbig quote cbq pre std self fx6 pkg gen frags body e' H =>
+           conj (f_equal (fun r => let! (b, e) := r in Ok (assemble pkg gen e b)) H)
+                (file_imports fzero ffmt gfmt fbig quote cbq pre std self fx6 pkg gen frags body e' H)).
+Qed.
+Print Assumptions C01_file_imports.
